@@ -60,6 +60,9 @@ func (e *Engine) VerifyFunc(fn *ssa.Function, c *Contract) (res *FuncResult) {
 			fx.buildScripts()
 			if fx.topFrame != nil {
 				ri := &ReplayInfo{Fn: fn, Params: fx.topFrame.params}
+				// results predicted by the model are only comparable with a real run when nothing
+				// the function does is abstracted: no assumed contract applied, no ghost state read
+				ri.ModelDependent = len(fx.usedAssumed) > 0 || fx.ghostUsed
 				if t, ok := fx.epochConsts["e0|M:bv8"]; ok {
 					ri.MemBV8 = t.S
 				}
